@@ -21,6 +21,7 @@ import (
 	"verif/checker/internal/effects"
 	"verif/checker/internal/load"
 	"verif/checker/internal/report"
+	"verif/checker/internal/rules"
 )
 
 var verifDir = func() string {
@@ -148,6 +149,7 @@ func runProperty(id, tier string, seed int64, prog *load.Program, dump bool, onl
 	// pure-call canonicalisation used by access paths, so a rule's verdict
 	// cannot depend on which rules ran before it.
 	effects.Of(prog)
+	rules.InstallPredicates(prog)
 	for _, pk := range prog.Pkgs {
 		run.Packages = append(run.Packages, pk.PkgPath)
 	}
